@@ -76,6 +76,8 @@ FIXED = [
   "time sorting with a lifecycle table that contains an entry with start_time u64::MAX (the value Lifecycle::merge writes into a merged-away lifecycle) panicked in 'lifecycle start + timestamp' (attempt to add with overflow): the output was not a permutation of the input", "replays/examples/C10-lifecycle-start-u64-max.json"),
  ("KF-C10-2", "C10", "C10-min-delay-near-u64-max", "fix: buffer_sort_messages doesn't overflow for a huge min_buffer_delay_us",
   "buffer_sort_messages with a minimum buffering delay within 1000 s of u64::MAX (any window size) panicked in 'min_buffer_delay_us + 1000 s' on the first message, and for delays from u64::MAX/2 up in 'calculated time + buffer time' of the release test (attempt to add with overflow; without overflow checks the sum wraps and messages are released far too early): output neither a permutation nor ordered", "replays/examples/C10-min-delay-near-u64-max.json"),
+ ("KF-C14-1", "C14", "C14-file-named-twice-equal-start", "fix: convert removes a file given multiple times also if another file starts at the same time",
+  "convert with a file argument named twice (A B A) where another file with the same ECU set starts at the same reception time: the stable sort by start time leaves the two A apart, dedup() only removes neighbours, and every message of A is emitted twice (screen and -o file); files with distinct start times were de-duplicated as intended (test params_file_glob_autoremove_dup)", "replays/examples/C14-file-named-twice-equal-start.json"),
  ("KF-C03-16", "C03", "C03-flst-cumulative-reservation", "fix: file transfer plugin reserves only 64k upfront",
   "with the plugin's defaults (allowSave) every file-transfer announcement reserved up to 16 MiB for the announced size: a 491-byte input with a handful of announcements requested 71 MiB, a 1 MB file with 10 000 announcements would request 160 GB (allocation failure = abort)", "replays/examples/C03-flst-cumulative-reservation.json"),
  ("KF-C03-17", "C03", "C03-get-log-info-app-count", "fix: get log info response with a corrupt app id count",
